@@ -1253,6 +1253,9 @@ class Interp:
         cs = fr['conds'][fr.get('nconds0', 0):]
         c = TRUE if not cs else (cs[0] if len(cs) == 1 else ('and', list(cs)))
         fr['returns'].append((c, v))
+        if fr.get('for_ids'):
+            # leaves the function from inside a `for` loop: the remaining elements are not visited
+            self.effect('exit', what='return', line=e['line'], for_loops=list(fr['for_ids']), unit=(v == ('tuple', [])))
         return ('diverge', 'return', e['line'])
 
     def e_Try(self, e, env, **kw):
@@ -1300,7 +1303,7 @@ class Interp:
             arms += b[1]
         else:
             arms.append((TRUE, b))
-        return same_identifier(('alt', arms))
+        return ('alt', arms)
 
     def effect_at(self, c, kind, **kw):
         self.frame['conds'].append(c)
@@ -1332,7 +1335,7 @@ class Interp:
                 self.effect_at(full, 'diverge', what=v[1], line=v[2])
             arms.append((c, v))
             prior.append(c)
-        return same_identifier(('alt', arms))
+        return ('alt', arms)
 
     def assigned_locals(self, node, out):
         if isinstance(node, dict):
@@ -1392,7 +1395,16 @@ class Interp:
         self.frame['loops'].append((eid, src, conds))
         n0 = len(self.frame['conds'])
         self.frame.setdefault('loop_bases', []).append(n0)
+        self.frame.setdefault('for_ids', []).append(eid)
+        n_eff0 = len(self.effects.get(self.frames[0]['fn'], []))
         self.block_in(e['body'], env2)
+        self.frame['for_ids'].pop()
+        # a `break` / value-less `return` somewhere in the body ends the iteration early: whatever this loop builds (pushes, repetitions) covers
+        # only a prefix of the source - recorded as a selection condition of the loop, so that every rule demanding an unfiltered source sees it
+        for x_ in self.effects.get(self.frames[0]['fn'], [])[n_eff0:]:
+            if x_['kind'] == 'exit' and eid in x_.get('for_loops', ()) and x_.get('unit'):
+                conds.append(('t', ('unknown', 'early-exit', x_['line'], x_['what'])))
+                break
         del self.frame['conds'][n0:]   # conditions introduced by `continue` / `break` guards end with the loop body
         self.frame['loop_bases'].pop()
         self.frame['loops'].pop()
@@ -1444,6 +1456,8 @@ class Interp:
         return self.e_While(e, env)
 
     def e_Break(self, e, env, **kw):
+        if self.frame.get('for_ids'):
+            self.effect('exit', what='break', line=e['line'], for_loops=self.frame['for_ids'][-1:], unit=True)
         return ('diverge', 'break', e['line'])
 
     def e_Continue(self, e, env, **kw):
@@ -1717,6 +1731,7 @@ class Interp:
         saved_mod = fr['mod']
         fr['mod'] = mod
         # closures have their own `return`/`?` scope
+        saved_for, fr['for_ids'] = fr.get('for_ids', []), []
         saved_returns, saved_n0 = fr['returns'], fr.get('nconds0', 0)
         fr['returns'], fr['nconds0'] = [], len(fr['conds'])
         n0 = len(fr['conds'])
@@ -1725,6 +1740,7 @@ class Interp:
         if fr['returns']:
             v = ('alt', fr['returns'] + [(TRUE, v)])
         fr['returns'], fr['nconds0'] = saved_returns, saved_n0
+        fr['for_ids'] = saved_for
         fr['mod'] = saved_mod
         return v
 
@@ -2331,6 +2347,34 @@ def flatten(t):
     return ('tmpl', t[1], go(t[2]), t[3])
 
 
+def plain_idents(t):
+    """view of a term for structural comparison: a choice between Ident::new_raw(x) and Ident::new(x) reads as Ident::new(x) (see
+    same_identifier); the evaluators keep the original term, where `to_string()` of a raw identifier differs"""
+    memo = {}
+
+    def go(x):
+        if isinstance(x, tuple):
+            if id(x) in memo:
+                return memo[id(x)]
+            if x and x[0] == 'closure':
+                r = x
+            else:
+                r = tuple(go(y) for y in x)
+                if r and r[0] == 'alt':
+                    r = same_identifier(r)
+                if all(a is b for a, b in zip(r, x)) and len(r) == len(x):
+                    r = x
+            memo[id(x)] = r
+            return r
+        if isinstance(x, list):
+            r = [go(y) for y in x]
+            return x if all(a is b for a, b in zip(r, x)) else r
+        if isinstance(x, dict):
+            return x
+        return x
+    return go(t)
+
+
 def holes(t):
     """name -> term for the top-level holes of a template (repetition holes are prefixed with '*')"""
     out = {}
@@ -2338,7 +2382,7 @@ def holes(t):
     def go(items, pre):
         for it in items:
             if it[0] == 'hole':
-                out.setdefault(pre + it[1], it[2])
+                out.setdefault(pre + it[1], plain_idents(it[2]))
             elif it[0] == 'rep':
                 go(it[1], '*')
     go(t[2], '')
